@@ -1,9 +1,470 @@
+// Package c20: block and header encoding (core/types/block.go, core/types/header.go,
+// common/merkle_tree.go). Correspondence: recorded runs of Block/Header.Deserialization, ToArray,
+// Hash and ComputeMerkleRoot against Model/BlockCodec.v. Oracles on the implementation: round trip
+// on the consumed bytes, duplicate and root checks under reorder/duplicate/drop/modify mutations,
+// hash coverage of every unsigned header field, key-encoding variants, hostile counts, and the
+// inner-node/transaction ambiguity of the transaction root.
 package c20
 
-import "verif/harness/hx"
+import (
+	"bytes"
+	"encoding/json"
+	"fmt"
+
+	"github.com/ontio/ontology-crypto/keypair"
+	"github.com/ontio/ontology/common"
+	"github.com/ontio/ontology/core/types"
+
+	"verif/harness/hx"
+)
 
 func init() { hx.Register("C20", Run) }
 
+func replayOne(c *hx.Ctx, in *input) {
+	switch in.Kind {
+	case "header":
+		evalHeader(c, "replay", hx.UnHex(in.Hex))
+	case "merkle":
+		var ids [][]byte
+		for _, h := range in.List {
+			ids = append(ids, hx.UnHex(h))
+		}
+		evalMerkle(c, "replay", ids, len(ids) <= 8)
+	case "confusion":
+		probeInnerNode(c)
+	default:
+		evalBlock(c, "replay", hx.UnHex(in.Hex), false, true)
+	}
+}
+
 func Run(c *hx.Ctx) {
 	c.CoqModule("Corr.C20")
+	var rin input
+	if c.ReplayInput(&rin) {
+		replayOne(c, &rin)
+		return
+	}
+	for _, raw := range c.CorpusInputs() {
+		var in input
+		if json.Unmarshal(raw, &in) == nil {
+			replayOne(c, &in)
+		}
+	}
+
+	signers := []*signer{newSigner(c), newSigner(c), newSigner(c)}
+	maxTx := c.N(9, 24)
+
+	// deterministic probes of the known finding classes (every run)
+	probeCounts(c, signers)
+	probeKeys(c, signers)
+	probeInnerNode(c)
+
+	// G1/G2/G3: valid blocks and their mutations
+	nBlocks := c.N(36, 300)
+	realBudget := c.N(14, 60)
+	for i := 0; i < nBlocks; i++ {
+		ntx := i % (maxTx + 1)
+		if i >= 2*(maxTx+1) {
+			ntx = c.Intn(maxTx + 1)
+		}
+		s := genSpec(c, signers, ntx, c.Intn(5), c.Intn(4))
+		b := s.block()
+		real := realBudget > 0 && ntx <= 4
+		if real {
+			realBudget--
+		}
+		r := evalBlock(c, fmt.Sprintf("valid/ntx=%d", ntx), b, real, true)
+		c.Nontrivial("valid:" + hx.Hex(r.hash))
+		c.Count(fmt.Sprintf("valid:ntx=%d", ntx))
+		if !r.ok {
+			c.Fail("valid:rejected", "a well-formed block decodes", input{Kind: "block", Label: "valid", Hex: hx.Hex(b)}, fmt.Sprintf("err%d", r.code), "accepted")
+			continue
+		}
+		if i < 3 {
+			c.Sample(map[string]interface{}{"kind": "valid block", "ntx": ntx, "bytes": len(b), "hash": hx.Hex(r.hash)})
+		}
+		checkFields(c, s, b, r)
+		apiRoundTrip(c, s, b)
+		txMutations(c, s, signers, r)
+		headerMutations(c, s, r)
+		if i%3 == 0 {
+			malformed(c, s, b)
+		}
+	}
+
+	// G4: key-encoding variants inside otherwise valid blocks
+	for i := 0; i < c.N(26, 130); i++ {
+		s := genSpec(c, signers, c.Intn(3), 0, c.Intn(2))
+		nk := 1 + c.Intn(3)
+		lab := ""
+		for j := 0; j < nk; j++ {
+			k, l := keyVariant(c, (i+j*5)%nKeyKinds)
+			s.Keys = append(s.Keys, k)
+			lab += "," + l
+		}
+		r := evalBlock(c, "keys/"+lab[1:], s.block(), false, true)
+		c.Nontrivial("keys:" + lab + fmt.Sprint(r.ok))
+		c.Count(fmt.Sprintf("keys:accepted=%v", r.ok))
+	}
+
+	// G5: header-only inputs: valid, every truncation class, byte flips, garbage
+	for i := 0; i < c.N(60, 400); i++ {
+		s := genSpec(c, signers, 0, c.Intn(4), c.Intn(4))
+		h := s.header()
+		switch i % 5 {
+		case 0:
+			evalHeader(c, "header/valid", h)
+		case 1:
+			evalHeader(c, "header/truncated", h[:c.Intn(len(h))])
+		case 2:
+			m := append([]byte(nil), h...)
+			m[c.Intn(len(m))] ^= byte(1 << uint(c.Intn(8)))
+			evalHeader(c, "header/bitflip", m)
+		case 3:
+			m := append([]byte(nil), h...)
+			ul := len(s.unsigned())
+			m[ul+c.Intn(len(m)-ul)] = []byte{0xfd, 0xfe, 0xff, 0x00, 0x80}[c.Intn(5)]
+			evalHeader(c, "header/varint-tag", m)
+		default:
+			evalHeader(c, "header/trailing", append(h, c.Bytes(1+c.Intn(8))...))
+		}
+	}
+
+	// G7: merkle roots of arbitrary hash lists (duplicates allowed), 0..N
+	for n := 0; n <= c.N(17, 40); n++ {
+		var ids [][]byte
+		for j := 0; j < n; j++ {
+			if j > 0 && c.Intn(5) == 0 {
+				ids = append(ids, ids[c.Intn(j)])
+			} else {
+				ids = append(ids, c.Bytes(32))
+			}
+		}
+		evalMerkle(c, "merkle/random", ids, n <= 9)
+		c.Nontrivial(fmt.Sprintf("merkle:%d", n))
+	}
+	merkleShapes(c)
+}
+
+// checkFields: the decoded header carries exactly the fields the input was written with.
+func checkFields(c *hx.Ctx, s *spec, b []byte, r blockResult) {
+	h := r.blk.Header
+	ok := h.Version == s.Version && h.PrevBlockHash == common.Uint256(s.Prev) && h.TransactionsRoot == common.Uint256(s.Root) &&
+		h.BlockRoot == common.Uint256(s.BlockRoot) && h.Timestamp == s.Timestamp && h.Height == s.Height && h.ConsensusData == s.ConsData &&
+		bytes.Equal(h.ConsensusPayload, s.Payload) && h.NextBookkeeper == common.Address(s.NextBk) &&
+		len(h.Bookkeepers) == len(s.Keys) && len(h.SigData) == len(s.Sigs) && len(r.blk.Transactions) == len(s.Txs)
+	for i := range s.Sigs {
+		ok = ok && i < len(h.SigData) && bytes.Equal(h.SigData[i], s.Sigs[i])
+	}
+	for i := range s.Txs {
+		ok = ok && i < len(r.blk.Transactions) && bytes.Equal(r.blk.Transactions[i].ToArray(), s.Txs[i])
+	}
+	if !ok {
+		c.Fail("decode:fields-differ", "decoding returns the fields that were encoded", input{Kind: "block", Label: "valid", Hex: hx.Hex(b)}, "decoded fields differ", "fields as written")
+	}
+}
+
+// apiRoundTrip: the same block built through the types API serializes to the same bytes
+// (ties Header/Block.Serialization to the independent writer).
+func apiRoundTrip(c *hx.Ctx, s *spec, b []byte) {
+	hd := &types.Header{Version: s.Version, PrevBlockHash: s.Prev, TransactionsRoot: s.Root, BlockRoot: s.BlockRoot, Timestamp: s.Timestamp,
+		Height: s.Height, ConsensusData: s.ConsData, ConsensusPayload: s.Payload, NextBookkeeper: s.NextBk, SigData: s.Sigs}
+	for _, k := range s.Keys {
+		pk, err := keypair.DeserializePublicKey(k)
+		if err != nil {
+			return
+		}
+		hd.Bookkeepers = append(hd.Bookkeepers, pk)
+	}
+	blk := &types.Block{Header: hd}
+	for _, t := range s.Txs {
+		tx, err := types.TransactionFromRawBytes(append([]byte(nil), t...))
+		if err != nil {
+			return
+		}
+		blk.Transactions = append(blk.Transactions, tx)
+	}
+	c.Eval()
+	var out []byte
+	if p, msg := hx.Recover(func() { out = blk.ToArray() }); p {
+		c.Fail("panic:serialization", "no panic", input{Kind: "block", Label: "api", Hex: hx.Hex(b)}, msg, "bytes")
+		return
+	}
+	if !bytes.Equal(out, b) {
+		c.Fail("encode:layout-differs", "Block.Serialization writes header fields, key list, signature list, count and transactions in order",
+			input{Kind: "block", Label: "api", Hex: hx.Hex(b)}, hx.Hex(out), hx.Hex(b))
+	}
+	h := blk.Hash()
+	if !bytes.Equal(h[:], sha256d(s.unsigned())) {
+		c.Fail("hash:not-unsigned-header", "block hash is the double SHA-256 of exactly the unsigned header fields",
+			input{Kind: "block", Label: "api", Hex: hx.Hex(b)}, hx.Hex(h[:]), hx.Hex(sha256d(s.unsigned())))
+	}
+	blk.RebuildMerkleRoot()
+	if blk.Header.TransactionsRoot != common.Uint256(s.Root) {
+		c.Fail("merkle:root-differs", "RebuildMerkleRoot gives the root of the transaction hashes", input{Kind: "block", Label: "api", Hex: hx.Hex(b)},
+			hx.Hex(blk.Header.TransactionsRoot[:]), hx.Hex(s.Root[:]))
+	}
+}
+
+func expectRejected(c *hx.Ctx, label, class, clause string, s *spec, emit bool) {
+	b := s.block()
+	r := evalBlock(c, label, b, false, emit)
+	c.Nontrivial(label + hx.Hex(sha256d(b)))
+	if r.ok {
+		c.Fail(class, clause, input{Kind: "block", Label: label, Hex: hx.Hex(b)}, "accepted", "rejected")
+	}
+}
+
+// txMutations: reorder / duplicate / drop / modify / count mutations of the transaction list.
+func txMutations(c *hx.Ctx, s *spec, signers []*signer, r blockResult) {
+	n := len(s.Txs)
+	rootClause := "decoding rejects a block whose transaction list does not match the header's transaction root"
+	dupClause := "decoding rejects a block that contains the same transaction twice"
+	if n >= 2 {
+		m := s.clone()
+		i := c.Intn(n - 1)
+		j := i + 1 + c.Intn(n-i-1)
+		m.Txs[i], m.Txs[j] = m.Txs[j], m.Txs[i]
+		expectRejected(c, "mut/reorder", "root:reorder-accepted", rootClause, m, true)
+	}
+	if n >= 1 {
+		// duplicate one transaction, old root
+		m := s.clone()
+		m.Txs = append(m.Txs, m.Txs[c.Intn(n)])
+		expectRejected(c, "mut/dup-old-root", "dup:accepted", dupClause, m, true)
+		// duplicate with the root recomputed over the list with the duplicate: only the duplicate check stops it
+		m = s.clone()
+		i := c.Intn(n)
+		m.Txs = append(m.Txs[:i+1], append([][]byte{m.Txs[i]}, m.Txs[i+1:]...)...)
+		m.setRoot()
+		expectRejected(c, "mut/dup-new-root", "dup:accepted", dupClause, m, true)
+		// drop
+		m = s.clone()
+		i = c.Intn(n)
+		m.Txs = append(m.Txs[:i], m.Txs[i+1:]...)
+		expectRejected(c, "mut/drop", "root:drop-accepted", rootClause, m, true)
+		// modify: replace by a different transaction
+		m = s.clone()
+		raw, _ := genTx(c, signers)
+		m.Txs[c.Intn(n)] = raw
+		expectRejected(c, "mut/modify", "root:modify-accepted", rootClause, m, true)
+	}
+	if n%2 == 1 && n >= 1 {
+		// the pairing rule duplicates an odd last element: [.., c] and [.., c, c] have the same root
+		m := s.clone()
+		m.Txs = append(m.Txs, m.Txs[n-1])
+		b := m.block()
+		if !bytes.Equal(ownMerkleOfTxs(m.Txs), s.Root[:]) && n >= 2 {
+			c.Note("driver self-check: odd-duplication roots differ")
+		}
+		rr := evalBlock(c, "mut/dup-odd-last-same-root", b, false, true)
+		c.Count("dup-odd-last")
+		if rr.ok {
+			c.Fail("dup:accepted", dupClause, input{Kind: "block", Label: "mut/dup-odd-last-same-root", Hex: hx.Hex(b)}, "accepted", "rejected")
+		}
+	}
+	// count field one more / one less than the list, and huge
+	for _, d := range []int64{1, -1, 0xffffffff} {
+		if d == -1 && n == 0 {
+			continue
+		}
+		m := s.clone()
+		v := uint32(int64(n) + d)
+		if d == 0xffffffff {
+			v = 0xffffffff
+		}
+		m.NTx = &v
+		expectRejected(c, "mut/count", "root:count-accepted", rootClause, m, d != 1)
+	}
+	// transaction root itself changed
+	m := s.clone()
+	m.Root[c.Intn(32)] ^= byte(1 << uint(c.Intn(8)))
+	expectRejected(c, "mut/root-field", "root:field-accepted", rootClause, m, true)
+}
+
+func ownMerkleOfTxs(txs [][]byte) []byte {
+	var ids [][]byte
+	for _, t := range txs {
+		if h, ok := txHash(t); ok {
+			ids = append(ids, h)
+		}
+	}
+	return ownMerkle(nil, ids)
+}
+
+// headerMutations: every unsigned field enters the hash; bookkeepers and signatures do not.
+func headerMutations(c *hx.Ctx, s *spec, r blockResult) {
+	clause := "the block hash covers every header field except the signer list and signatures"
+	type mut struct {
+		name string
+		f    func(m *spec)
+	}
+	flip := func(b []byte) { b[c.Intn(len(b))] ^= byte(1 << uint(c.Intn(8))) }
+	muts := []mut{
+		{"Version", func(m *spec) { m.Version ^= 1 << uint(c.Intn(32)) }},
+		{"PrevBlockHash", func(m *spec) { flip(m.Prev[:]) }},
+		{"BlockRoot", func(m *spec) { flip(m.BlockRoot[:]) }},
+		{"Timestamp", func(m *spec) { m.Timestamp ^= 1 << uint(c.Intn(32)) }},
+		{"Height", func(m *spec) { m.Height ^= 1 << uint(c.Intn(32)) }},
+		{"ConsensusData", func(m *spec) { m.ConsData ^= 1 << uint(c.Intn(64)) }},
+		{"ConsensusPayload", func(m *spec) {
+			if len(m.Payload) == 0 || c.Intn(3) == 0 {
+				m.Payload = append(m.Payload, byte(c.Intn(256)))
+			} else {
+				flip(m.Payload)
+			}
+		}},
+		{"NextBookkeeper", func(m *spec) { flip(m.NextBk[:]) }},
+	}
+	pick := c.Intn(len(muts))
+	for i, mu := range muts {
+		m := s.clone()
+		mu.f(m)
+		b := m.block()
+		rr := evalBlock(c, "hdr/"+mu.name, b, false, i == pick)
+		c.Nontrivial("hdr:" + mu.name + hx.Hex(sha256d(b)))
+		if !rr.ok {
+			c.Fail("hash:field-mutation-rejected", "a change of an unsigned field other than the transaction root still decodes",
+				input{Kind: "block", Label: "hdr/" + mu.name, Hex: hx.Hex(b)}, fmt.Sprintf("err%d", rr.code), "accepted")
+			continue
+		}
+		if bytes.Equal(rr.hash, r.hash) {
+			c.Fail("hash:field-not-covered:"+mu.name, clause, input{Kind: "block", Label: "hdr/" + mu.name, Hex: hx.Hex(b)}, hx.Hex(rr.hash), "a different hash")
+		}
+	}
+	// transaction root with an empty list: the root field is covered too (block with 0 txs and root != 0 is rejected above);
+	// signer list and signatures: hash unchanged
+	m := s.clone()
+	k, _ := keyVariant(c, c.Intn(nCanonicalKinds))
+	m.Keys = append(m.Keys, k)
+	m.Sigs = append(m.Sigs, c.Bytes(1+c.Intn(64)))
+	if len(m.Sigs) > 1 && c.Intn(2) == 0 {
+		m.Sigs = m.Sigs[1:]
+	}
+	b := m.block()
+	rr := evalBlock(c, "hdr/signers", b, false, true)
+	if rr.ok && !bytes.Equal(rr.hash, r.hash) {
+		c.Fail("hash:covers-signers", clause, input{Kind: "block", Label: "hdr/signers", Hex: hx.Hex(b)}, hx.Hex(rr.hash), hx.Hex(r.hash))
+	}
+}
+
+// malformed: truncations, bit flips, non-minimal counts.
+func malformed(c *hx.Ctx, s *spec, b []byte) {
+	evalBlock(c, "bad/truncated", b[:c.Intn(len(b))], false, true)
+	m := append([]byte(nil), b...)
+	m[c.Intn(len(m))] ^= byte(1 << uint(c.Intn(8)))
+	evalBlock(c, "bad/bitflip", m, false, true)
+	evalBlock(c, "bad/trailing", append(append([]byte(nil), b...), c.Bytes(1+c.Intn(6))...), false, true)
+	t := s.clone()
+	t.NKeysForm = []byte{0xfd, 0xfe, 0xff}[c.Intn(3)]
+	r := evalBlock(c, "bad/nonminimal-key-count", t.block(), false, true)
+	if r.ok {
+		c.Fail("canon:nonminimal-count-accepted", "a block decoded from bytes re-encodes to the same bytes", input{Kind: "block", Hex: hx.Hex(t.block())}, "accepted", "rejected")
+	}
+	t = s.clone()
+	t.NSigsForm = []byte{0xfd, 0xfe, 0xff}[c.Intn(3)]
+	evalBlock(c, "bad/nonminimal-sig-count", t.block(), false, true)
+	evalBlock(c, "bad/garbage", c.Bytes(c.Intn(200)), false, true)
+}
+
+// probeCounts: bookkeeper / signature counts at and above 2^63 (known finding class).
+func probeCounts(c *hx.Ctx, signers []*signer) {
+	for _, v := range []uint64{1 << 63, 1<<63 + 1, 0xffffffffffffffff, 1<<63 - 1, 1 << 32} {
+		for which := 0; which < 2; which++ {
+			s := genSpec(c, signers, 1, 0, 0)
+			vv := v
+			if which == 0 {
+				s.NKeys = &vv
+			} else {
+				s.NSigs = &vv
+			}
+			evalBlock(c, fmt.Sprintf("count/%d/%x", which, v), s.block(), which == 0 && v == 1<<63, true)
+			evalHeader(c, fmt.Sprintf("count-header/%d/%x", which, v), s.header())
+			c.Nontrivial(fmt.Sprintf("count:%d:%x", which, v))
+		}
+	}
+}
+
+// probeKeys: every key-encoding variant once, alone in a block (known finding class for the
+// accepted non-canonical ones).
+func probeKeys(c *hx.Ctx, signers []*signer) {
+	for kind := 0; kind < nKeyKinds; kind++ {
+		s := genSpec(c, signers, 1, 0, 1)
+		k, label := keyVariant(c, kind)
+		s.Keys = [][]byte{k}
+		r := evalBlock(c, "keyprobe/"+label, s.block(), false, true)
+		re, ok := parseKey(k)
+		c.Count(fmt.Sprintf("keyprobe:%s:accepted=%v:canonical=%v", label, ok, ok && bytes.Equal(re, k)))
+		if ok != r.ok {
+			c.Fail("keys:parser-disagrees", "a header decodes iff each bookkeeper key parses", input{Kind: "block", Hex: hx.Hex(s.block())}, r.ok, ok)
+		}
+		c.Nontrivial("keyprobe:" + label)
+		if kind == 4 {
+			c.Sample(map[string]interface{}{"kind": "non-canonical key accepted", "encoding": hx.Hex(k), "rewritten_as": hx.Hex(re)})
+		}
+	}
+}
+
+// probeInnerNode: two blocks with the same header (hence the same block hash) and different
+// transaction lists, both accepted: [T1, T2] and [T3] where the 64 unsigned bytes of T3 are
+// hash(T1) ++ hash(T2). Found by grinding nonces (about 2^15 + 2^16 double hashes).
+func probeInnerNode(c *hx.Ctx) {
+	mk := func(nonce uint32, tail byte) []byte {
+		w := &writer{}
+		w.b = append(w.b, 0, byte(types.InvokeNeo))
+		w.u32(nonce)
+		w.u64(0)
+		w.u64(20000)
+		w.raw(bytes.Repeat([]byte{0x20}, 20))
+		w.varbytes([]byte{0x51, tail}) // PUSH1 + one byte
+		w.b = append(w.b, 0)           // attributes
+		return w.b
+	}
+	var t1u, t2u, a, bb []byte
+	for n := uint32(0); n < 1<<24 && a == nil; n++ {
+		u := mk(n, 0x61)
+		h := sha256d(u)
+		if h[0] == 0 && (h[1] == byte(types.InvokeNeo) || h[1] == byte(types.InvokeWasm)) {
+			t1u, a = u, h
+		}
+	}
+	for n := uint32(0); n < 1<<26 && bb == nil; n++ {
+		u := mk(n, 0x62)
+		h := sha256d(u)
+		if h[10] == 20 && h[31] == 0 {
+			t2u, bb = u, h
+		}
+	}
+	if a == nil || bb == nil {
+		c.Note("inner-node probe: grinding found no witness (unexpected)")
+		return
+	}
+	t1 := append(append([]byte(nil), t1u...), 0) // no signatures
+	t2 := append(append([]byte(nil), t2u...), 0)
+	t3 := append(append(append([]byte(nil), a...), bb...), 0)
+	s := &spec{Height: 1, Timestamp: 1, Txs: [][]byte{t1, t2}}
+	copy(s.Root[:], sha256d(append(append([]byte(nil), a...), bb...)))
+	s2 := s.clone()
+	s2.Txs = [][]byte{t3}
+	b1, b2 := s.block(), s2.block()
+	r1 := evalBlock(c, "confusion/two-txs", b1, true, true)
+	r2 := evalBlock(c, "confusion/one-64-byte-tx", b2, true, true)
+	c.Count(fmt.Sprintf("confusion:accepted=%v,%v", r1.ok, r2.ok))
+	in := map[string]string{"kind": "confusion", "block1": hx.Hex(b1), "block2": hx.Hex(b2)}
+	if r1.ok && r2.ok && bytes.Equal(r1.hash, r2.hash) && len(r1.ids) != len(r2.ids) {
+		c.Sample(map[string]interface{}{"kind": "same block hash, different transaction lists, both accepted", "hash": hx.Hex(r1.hash),
+			"txs_block1": []string{hx.Hex(t1), hx.Hex(t2)}, "txs_block2": []string{hx.Hex(t3)}})
+		c.Fail("binding:inner-node-as-transaction", "the block hash binds the transaction list", in,
+			"two accepted blocks with hash "+hx.Hex(r1.hash)+" carry 2 and 1 transactions", "at most one transaction list per block hash")
+	}
+}
+
+// merkleShapes: the confusions proved in Proofs/BlockMerkle.v, on the implementation.
+func merkleShapes(c *hx.Ctx) {
+	a, b, cc, d := c.Bytes(32), c.Bytes(32), c.Bytes(32), c.Bytes(32)
+	evalMerkle(c, "merkle/abc", [][]byte{a, b, cc}, true)
+	evalMerkle(c, "merkle/abcc", [][]byte{a, b, cc, cc}, true)
+	evalMerkle(c, "merkle/abcd", [][]byte{a, b, cc, d}, true)
+	evalMerkle(c, "merkle/inner", [][]byte{sha256d(append(append([]byte(nil), a...), b...)), sha256d(append(append([]byte(nil), cc...), d...))}, true)
+	evalMerkle(c, "merkle/zero", [][]byte{make([]byte, 32)}, true)
 }
